@@ -517,6 +517,8 @@ impl<T: ObjectStore> ObjectStore for EncryptedStore<T> {
                 for (i, chunk) in data.chunks_mut(chunk_size).enumerate() {
                     let nonce = derive_gcm_nonce(&base_nonce, i as u64);
                     let aad = chunk_aad(self.chunk_size, i as u64);
+                    #[cfg(feature = "verif")]
+                    crate::verif::nonce_log("put_chunk", &nonce, &aad, chunk);
                     let tag = self
                         .cipher
                         .encrypt_inout_detached(&Nonce::from(nonce), &aad, chunk.into())
@@ -1028,6 +1030,8 @@ impl<T: ObjectStore> MultipartUpload for EncryptedStoreUploader<T> {
             let nonce = derive_gcm_nonce(&self.aes_nonce, self.chunk_index);
             let aad = chunk_aad(self.chunk_size, self.chunk_index);
             self.chunk_index = self.chunk_index.wrapping_add(1);
+            #[cfg(feature = "verif")]
+            crate::verif::nonce_log("multipart_chunk", &nonce, &aad, chunk);
             match self
                 .cipher
                 .encrypt_inout_detached(&Nonce::from(nonce), &aad, chunk.into())
@@ -1062,6 +1066,8 @@ impl<T: ObjectStore> MultipartUpload for EncryptedStoreUploader<T> {
                 let nonce = derive_gcm_nonce(&self.aes_nonce, self.chunk_index);
                 let aad = chunk_aad(self.chunk_size, self.chunk_index);
                 self.chunk_index = self.chunk_index.wrapping_add(1);
+                #[cfg(feature = "verif")]
+                crate::verif::nonce_log("multipart_tail_chunk", &nonce, &aad, chunk);
                 let tag = self
                     .cipher
                     .encrypt_inout_detached(&Nonce::from(nonce), &aad, chunk.into())
@@ -1294,6 +1300,8 @@ fn seal_metadata(cipher: &Aes256Gcm, location: &Path, meta: &mut Metadata) -> Re
     let nonce: [u8; 12] = rand_bytes();
     let aad = metadata_auth_aad(location, meta);
     let mut empty = [];
+    #[cfg(feature = "verif")]
+    crate::verif::nonce_log("metadata_seal", &nonce, &aad, &empty);
     let tag = cipher
         .encrypt_inout_detached(&Nonce::from(nonce), &aad, (&mut empty[..]).into())
         .map_err(|err| Error::Generic {
